@@ -27,6 +27,39 @@ SHRINK_TIMEOUT = 4    # only while shrinking a non-terminating case; the result 
 KEY_POOL = ["a", "b", "c", "d", "!", "~", "a.b", "..", "x-1", "Z9", "#", "%s", "k=v", "[0]", "(", ")",
             "\"q\"", "'", "\\", "*", "?", "|", "{}", "+", "^", "`", "$", "&", ";", "<>", ",", "a_b",
             "0", "-", "=", ":", "~~", "!a"]
+# names that are proper prefixes of each other (siblings "run1" / "run10", also across depths): walks
+# that decide by string prefix instead of path components go wrong exactly there
+PREFIX_FAMILIES = [["a", "a1", "a10", "ab", "a!"], ["run", "run1", "run10", "r"], ["d", "da", "data", "data1"],
+                   ["x", "x-1", "x-10", "x-"], ["~", "~~", "~~~"], ["g", "g.", "g.h", "g.h.i"]]
+
+
+def pick_keys(rng, lo=3, hi=6):
+    """Key alphabet of one history: a random sample of the pool, or (one time in three) a family of
+    prefix-related names, possibly with a few unrelated ones."""
+    if rng.random() < 0.34:
+        fam = list(dict.fromkeys(rng.choice(PREFIX_FAMILIES)))
+        keys = rng.sample(fam, min(len(fam), rng.randint(max(2, lo - 1), hi)))
+        if rng.random() < 0.5:
+            keys += rng.sample(KEY_POOL[:6], 1)
+        keys = list(dict.fromkeys(keys))
+    else:
+        keys = rng.sample(KEY_POOL, rng.randint(lo, hi))
+    return keys, rng.sample(KEY_POOL, rng.randint(1, 3))
+
+
+def prefix_patterns() -> List[List[Any]]:
+    """Fixed shapes: an empty group next to a sibling whose name extends its own, at depth 1-3, fresh or
+    emptied by a later deletion, with / without attributes; then a copy of the containing group."""
+    H = []
+    H.append([["grp", ["data", "run1"]], ["set", ["data", "run10"], "i:1"], ["bnd"], ["copy", ["data"], ["c"]]])
+    H.append([["set", ["data", "run1", "x"], "i:1"], ["grp", ["data", "run10"]], ["bnd"], ["del", ["data", "run1", "x"]],
+              ["bnd"], ["copy", ["data"], ["c", "d"]], ["aset", ["c", "d", "run1"], "k", "i:2"]])
+    H.append([["grp", ["t", "data", "a"]], ["grp", ["t", "data", "a1"]], ["grp", ["t", "data", "a10", "z"]], ["aset", ["t", "data", "a1"], "k", "i:1"],
+              ["bnd"], ["copy", ["t"], ["u"]], ["bnd"], ["move", ["t", "data"], ["v"]]])
+    H.append([["grp", ["a"]], ["set", ["a1"], "i:1"], ["grp", ["ab", "a"]], ["set", ["ab", "a!"], "i:2"], ["bnd"], ["copy", ["ab"], ["a", "ab"]]])
+    return H
+
+
 VALUES = ["i:0", "i:1", "i:7", "i:42", "i:-3", "v:00", "v:7f00", "v:417f", "v:deadbeef", "v:7f7f", "e:"]
 
 
@@ -184,7 +217,7 @@ def targeted(rng, keys, attr_keys) -> List[Any]:
     val = lambda: rng.choice(VALUES)  # noqa: E731
     ak = lambda: rng.choice(attr_keys)  # noqa: E731
     mb = lambda p=0.6: [["bnd"]] if rng.random() < p else []  # noqa: E731
-    shape = rng.randrange(4)
+    shape = rng.randrange(5)
     H: List[Any] = []
     if shape == 0:      # replace-then-touch chain across >= 3 containers
         H += [["set", [k[0], k[1]], val()]]
@@ -209,6 +242,24 @@ def targeted(rng, keys, attr_keys) -> List[Any]:
         H += mb()
         H += [["copy", [k[0]], rng.choice([[k[0], k[4]], [k[0], k[2], k[4]], [k[0], k[4], k[1]], [k[0], k[2], k[4], k[0]]])]] + mb()
         H += [rng.choice([["del", [k[0], k[1]]], ["set", [k[0], k[2], k[4], k[3]], val()], ["copy", [k[0], k[2]], [k[0], k[2], k[1]]]])]
+    elif shape == 4:    # empty groups beside siblings whose names extend theirs, then a copy of the containing group
+        p = rng.choice(keys)
+        ext = [q for q in keys if q != p and q.startswith(p)] or [p + rng.choice(["0", "1", "!", ".", "x"])]
+        q = rng.choice(ext)
+        par = [k[0], k[1]][:rng.choice([0, 1, 1, 2, 2])]
+        if rng.random() < 0.5:      # fresh empty group
+            H += [["grp", par + [p]]]
+        else:                       # emptied by a later deletion
+            H += [["set", par + [p, k[2]], val()]] + mb() + [["del", par + [p, k[2]]]]
+        H += mb(0.3)
+        H += [rng.choice([["set", par + [q], val()], ["grp", par + [q]], ["set", par + [q, k[3]], val()]])]
+        if rng.random() < 0.3:
+            H += [["aset", par + [p], ak(), val()]]
+        H += mb()
+        if par:
+            H += [["copy", par[:rng.randint(1, len(par))], [k[4], k[0]] if rng.random() < 0.5 else [k[4]]]]
+        else:
+            H += [["grp", [k[4], k[2]]]]
     else:               # delete / recreate of datasets with attributes, attribute carriers on datasets
         H += [["set", [k[0]], val()], ["aset", [k[0]], ak(), val()]] + mb()
         H += [["aset", [k[0]], ak(), val()]] + mb()
@@ -220,13 +271,12 @@ def targeted(rng, keys, attr_keys) -> List[Any]:
 
 def gen_cases(ctx) -> List[List[Any]]:
     rng = ctx.rng
-    cases = list(ih5lib.pattern_histories())
+    cases = list(ih5lib.pattern_histories()) + prefix_patterns()
     ntarget = ctx.budget(120, 2000)
     nrand = ctx.budget(260, 4500)
     maxops = ctx.budget(20, 36)
     for i in range(ntarget + nrand):
-        keys = rng.sample(KEY_POOL, rng.randint(3, 6))
-        attr_keys = rng.sample(KEY_POOL, rng.randint(1, 3))
+        keys, attr_keys = pick_keys(rng, 3, 6)
         prefix = targeted(rng, keys, attr_keys) if i < ntarget else None
         n = (len(prefix) + rng.randint(0, 8)) if prefix else rng.randint(4, maxops)
         # copies of a group into its own subtree do not terminate on the pinned tree: every one
@@ -371,9 +421,10 @@ def run(ctx: vlib.Ctx):
     cov["evaluations"] = len(cases) + len(stacks)
     cov["distinct_nontrivial"] = len(nontrivial)
     cov["rule"] = ("fixed patterns + randomised targeted shapes (replace-then-touch over >=3 containers, create below deleted ancestors, "
-                   "copy of a group into its own subtree, attribute carriers on datasets) each followed by a random tail + random histories "
+                   "copy of a group into its own subtree, attribute carriers on datasets, empty groups beside siblings whose names extend theirs "
+                   "followed by a copy of the containing group) each followed by a random tail + random histories "
                    "from a shadow-tree-biased generator with a malformed-operation stream; per-history key alphabet of 3-6 keys drawn from "
-                   "printable ASCII without '@' and '/'; boundaries at random positions, 1-6 containers; non-trivial = distinct history "
+                   "printable ASCII without '@' and '/', one time in three a family of names that are prefixes of each other (a, a1, a10, ...); boundaries at random positions, 1-6 containers; non-trivial = distinct history "
                    "with at least one successful mutation after a boundary; plus synthetic raw container stacks (1-5 well-formed "
                    "containers over 3 keys, virtual/overwrite groups, datasets, markers, attributes) for the read path")
     cov["input_distribution"] = {"histories": len(cases), "distinct_histories": len(distinct), "steps": nsteps,
